@@ -73,6 +73,8 @@ type c19Case struct {
 	Sink        string    `json:"sink"`         // plugin | serial | concurrent
 	Rules       []c19Rule `json:"rules"`
 	RespStatus  int       `json:"resp_status"`
+	// Follow marks the follow-up transaction on the same WAF: it does not carry the X-Ctl header, so no ctl rule fires.
+	Follow bool `json:"follow,omitempty"`
 	// hostile bytes
 	HdrVal   c19Bytes `json:"hdr_val"`   // request header X-H
 	ArgVal   c19Bytes `json:"arg_val"`   // GET argument h
@@ -149,6 +151,9 @@ func (c *c19Case) modelFires(idx int) bool {
 	if r.Never {
 		return false
 	}
+	if len(r.Ctl) > 0 && c.Follow {
+		return false // ctl rules test the X-Ctl request header, which the follow-up transaction does not send
+	}
 	if c.RuleEngine != "On" {
 		return true
 	}
@@ -171,7 +176,8 @@ func (c *c19Case) modelFires(idx int) bool {
 type c19Expect struct {
 	EffEngine    string `json:"eff_engine"`
 	EngineByCtl  bool   `json:"engine_by_ctl"`
-	StatusSource string `json:"status_source"` // response | interruption | detectiononly
+	CtlPhase     int    `json:"ctl_phase,omitempty"` // phase of the rule that switched the engine
+	StatusSource string `json:"status_source"`       // response | interruption | detectiononly
 	Status       int    `json:"status"`
 	Relevant     bool   `json:"relevant"`
 	Records      int    `json:"records"`
@@ -212,7 +218,9 @@ func c19Relevant(pattern string, status int) bool {
 }
 
 // expect computes the expected number of records (12 lines of decision) and the effective parts.
-func (c *c19Case) expect() *c19Expect {
+// fired (may be nil) is the observed firing; it is consulted only for phase-5 rules after a real interruption,
+// where this property does not decide whether the rule runs.
+func (c *c19Case) expect(fired map[int]int) *c19Expect {
 	e := &c19Expect{EffEngine: c.AuditEngine, StatusSource: "response", Status: c.RespStatus}
 	parts := c19PartsSet("ABCFHZ") // documented default of SecAuditLogParts
 	if c.Parts != "" {
@@ -220,14 +228,18 @@ func (c *c19Case) expect() *c19Expect {
 	}
 	for i := range c.Rules {
 		r := &c.Rules[i]
-		if !c.modelFires(i) {
+		fires := c.modelFires(i)
+		if fired != nil && fires && r.Phase == 5 && c.RuleEngine == "On" && c.denyRule() != nil {
+			fires = fired[r.ID] > 0
+		}
+		if !fires {
 			continue
 		}
 		for _, ctl := range r.Ctl {
 			k, v, _ := strings.Cut(ctl, "=")
 			switch k {
 			case "auditEngine":
-				e.EffEngine, e.EngineByCtl = v, true
+				e.EffEngine, e.EngineByCtl, e.CtlPhase = v, true, r.Phase
 			case "auditLogParts":
 				e.PartsByCtl = true
 				switch v[0] {
@@ -278,6 +290,9 @@ func (e *c19Expect) countClass() string {
 	s := "count:" + strings.ToLower(e.EffEngine)
 	if e.EngineByCtl {
 		s += "-ctl"
+		if e.CtlPhase == 5 {
+			s += "5" // switched by a rule of the logging phase itself
+		}
 	}
 	if e.EffEngine == "RelevantOnly" {
 		s += "-" + e.StatusSource
@@ -334,6 +349,9 @@ func (c *c19Case) render(writerType, target, dir string) string {
 			acts = append(acts, "pass")
 		}
 		switch {
+		case len(r.Ctl) > 0:
+			// ctl carriers fire only for requests that ask for it, so that a follow-up transaction on the same WAF runs without any ctl
+			fmt.Fprintf(&sb, "SecRule REQUEST_HEADERS:X-Ctl \"@streq on\" \"%s\"\n", strings.Join(acts, ","))
 		case r.Never:
 			fmt.Fprintf(&sb, "SecRule ARGS:c19nomatch \"@streq never-%d\" \"%s\"\n", r.ID, strings.Join(acts, ","))
 		case r.Target != "":
